@@ -6,6 +6,11 @@ ROOT = "/verif"
 
 # id -> (engine, category, technique, level text, level note, design ref)
 CHECKS = {
+    "C12": ("enum", "model_checking",
+            "bounded-exhaustive enumeration of server replies per typed decoder (raw field lists over key x boundary-value pools; valid base reply with all single edits and pairs of edits; every frame count for typed lists) pushed through the real parser and converted under catch_unwind, accessors driven; two builds (default, chrono)",
+            "For each of 28 typed decoders and for Vec/tuple command lists: every field list of length <=2 over the decoder's keys (+unrelated/tag/case-variant keys) x 30 boundary spellings, a valid base reply with every single edit and pairs of edits, every frame count 0..N+1, and field names outside the tag alphabet through the parser; conversion and every public accessor/iterator of the result must yield a value or a TypedResponseError, never a panic; run with default features and with chrono.",
+            "Trusted: catch_unwind sees every panic (panic=unwind build, overflow checks on). The value pool is a class alphabet, not all strings.",
+            "DESIGN.md section 4 C12"),
     "C19": ("enum", "model_checking",
             "explicit exploration of every operation sequence (get/take_binary) up to depth 4/5 on every frame of a bounded family built by the real parser, all observers and all next/next_back iteration patterns compared with a Vec-based model after every step (no state merging)",
             "242 frames (all key sequences of length 0..4 over {a, A, b}, with/without binary) x every sequence of <=4/5 operations from {get(a), get(A), get(b), get(missing), take_binary}; after every step find/fields_len/is_empty/has_binary/binary/clone and fields(), &frame, into_iter() under every front/back pattern incl. IntoIter::take_binary; responses with 0..3 frames +- error under every front/back pattern with exact size hints, successful_frames, is_error, into_single_frame.",
